@@ -24,7 +24,7 @@ TRUSTED = ["vf.lpe (selector enumeration)", "vf.model", "independent reader: bui
 ASSUMPTIONS = [
     "configurations: access_mode r+ (default) and w+; flush_on_insert in {True, False}; encoding in {default, utf-8, utf-16, latin-1}; csv kwargs in {none, "
     "delimiter=';', quoting=QUOTE_ALL, quotechar=\"'\", lineterminator='\\n'}; compact key prefixes per insert",
-    "contents: tag values / measurements from {'a', '', 'x,y', 'q\"q', \"s'q\", 'l\\nm', 'r\\rs', 'c\\r\\nd', 'é', ' sp ', ';'}; field values in "
+    "contents: tag values / measurements from {'a', '', 'x,y', 'q\"q', \"s'q\", 'l\\nm', 'r\\rs', 'c\\r\\nd', 'é', ' sp ', ';', 'p\\n\\nq' (an empty physical line inside a quoted cell), 'u\\r\\n \\r\\nv' (a blank one)}; field values in "
     "{1, -0.5, None, 0}; times 0.5 s apart; other strings are outside the claim (C05 decides the row codec for all strings)",
     "histories: {ins,ins}, {ins,get(early stop),ins}, {ins,ins,update}, {ins,ins,remove}, {ins,ins,remove_all,ins}, "
     "{ins,contains,insert_multiple}, {ins,ins,update(no change),remove(no match)}, {ins,ins,ins,update,remove,update} (two rewrites)",
@@ -35,7 +35,7 @@ BOUNDS = {"points": 3}
 KF_CR = "KF-C04-lineterminator-without-CR"
 ENCODINGS = [None, "utf-8", "utf-16", "latin-1"]
 DIALECTS = [{}, {"delimiter": ";"}, {"quoting": csv.QUOTE_ALL}, {"quotechar": "'"}, {"lineterminator": "\n"}]
-STRS = ["a", "", "x,y", 'q"q', "s'q", "l\nm", "r\rs", "c\r\nd", "é", " sp ", ";"]
+STRS = ["a", "", "x,y", 'q"q', "s'q", "l\nm", "r\rs", "c\r\nd", "é", " sp ", ";", "p\n\nq", "u\r\n \r\nv"]
 FVALS = [1, -0.5, None, 0]
 SKELETONS = {
     "ins2": ["ins", "ins"],
